@@ -77,6 +77,10 @@ def scenario_lines(sc, suffix):
     nw = zck + ".nowrite"
     L += ["ctx %d" % s, "open %d %s rwt" % (s, nw), "init_write %d %d" % (s, s)] + writegen.cfg_lines(sc["cfg"], s, "", tag) + ["ioption %d 5 1" % s,
           "writeseg %d file:%s 8191" % (s, sc["src"]), "close %d" % s, "free %d" % s, "closefd %d" % s]
+    # a writer whose close fails (the output is /dev/full: every write gets ENOSPC), then freed: whatever the failed close
+    # gave up is given up once
+    L += ["ctx %d" % s, "open %d /dev/full rwt" % s, "init_write %d %d" % (s, s)] + writegen.cfg_lines(sc["cfg"], s, "", tag) + [
+          "write %d file:%s:0:3000" % (s, sc["src"]), "close %d" % s, "free %d" % s, "closefd %d" % s]
     L += ["ctx %d" % s, "open %d %s r" % (s, zck), "sink %d %s" % (s, sink), "init_read %d %d" % (s, s), "validate_checksums %d" % s]
     L += ["read %d 65536" % s] * (len(sc["D"]) // 65536 + 3) + ["close %d" % s, "free %d" % s, "closefd %d" % s]
     # copy + scan on a target with B's header
@@ -100,7 +104,7 @@ def scenario_lines(sc, suffix):
     d = s // 4
     L += ["reset_failed %d" % s, "dl_init %d %d" % (d, s)]
     for rd in range(4):
-        L += ["fetch %d %d %s 2 %d boundary=%s%d quoted=%d" % (d, s, sc["B"], (977, 16384, 1, 4093)[(rd + d) % 4] if rd else 977, "b0und.ary+", d * 10 + rd, rd % 2)]
+        L += ["fetch %d %d %s 2 %d boundary=%s%d quoted=%d fold=%d" % (d, s, sc["B"], (977, 16384, 1, 4093)[(rd + d) % 4] if rd else 977, "b0und.ary+", d * 10 + rd, rd % 2, (rd + 1) % 2)]
     L += ["dl_free %d" % d, "validate_data %d" % s, "ftruncate %d %d" % (s, len(sc["Bbuf"])), "free %d" % s, "closefd %d" % s, "closefd %d" % (s + 1)]
     return L, [zck, sink, tgt]
 
